@@ -71,6 +71,39 @@ func iterateMap(n datamodel.Node, bound int) (out []kv, errs []error, terminated
 	return out, errs, true
 }
 
+// iterateByCount calls Next() exactly count times without consulting Done()
+// in between (a legal way to drive a MapIterator when the length is known).
+func iterateByCount(n datamodel.Node, count int) (out []kv, problem string) {
+	it := n.MapIterator()
+	if it == nil {
+		return nil, "nil MapIterator"
+	}
+	for i := 0; i < count; i++ {
+		k, v, err := it.Next()
+		if err != nil {
+			return out, fmt.Sprintf("Next() #%d of %d without asking Done(): %v", i+1, count, err)
+		}
+		ks, _ := k.AsString()
+		l, err := v.AsLink()
+		if err != nil {
+			return out, fmt.Sprintf("Next() #%d of %d: value is not a link: %v", i+1, count, err)
+		}
+		out = append(out, kv{ks, l.String()})
+	}
+	if !it.Done() {
+		return out, fmt.Sprintf("not Done() after %d entries", count)
+	}
+	return out, ""
+}
+
+func clipKVs(p []kv) string {
+	s := fmt.Sprint(p)
+	if len(s) > 160 {
+		s = s[:160] + "…"
+	}
+	return s
+}
+
 func iterateNative(n nativeDir, bound int) (out []kv, terminated bool) {
 	it := n.Iterator()
 	for steps := 0; !it.Done(); steps++ {
@@ -160,12 +193,42 @@ func mapView(n datamodel.Node, want map[string]string, nonMembers []string, viol
 		}
 	}
 	checkPairs("MapIterator", pairs)
+	// driven by the count instead of by Done(): Next() exactly Length() times
+	// yields the same pairs, and only then is the iterator done
+	if len(errs) == 0 && term {
+		byCount, problem := iterateByCount(n, len(pairs))
+		if problem != "" {
+			viol("dir-iter-by-count MapIterator", problem)
+		} else if fmt.Sprint(byCount) != fmt.Sprint(pairs) {
+			viol("dir-iter-by-count MapIterator", fmt.Sprintf("Next() x %d without asking Done() yields %v, the Done()-guarded loop %v", len(pairs), clipKVs(byCount), clipKVs(pairs)))
+		}
+	}
 	if nd, ok := n.(nativeDir); ok {
 		np, term := iterateNative(nd, 4*len(want)+16)
 		if !term {
 			viol("dir-iter-nonterminating", "native Iterator did not finish")
 		}
 		checkPairs("Iterator", np)
+		if term {
+			it := nd.Iterator()
+			var byCount []kv
+			for i := 0; i < len(np); i++ {
+				k, v := it.Next()
+				if k == nil || v == nil {
+					viol("dir-iter-by-count Iterator", fmt.Sprintf("native Next() #%d of %d without asking Done() returned nil", i+1, len(np)))
+					break
+				}
+				byCount = append(byCount, kv{k.String(), v.Link().String()})
+			}
+			if len(byCount) == len(np) {
+				if fmt.Sprint(byCount) != fmt.Sprint(np) {
+					viol("dir-iter-by-count Iterator", fmt.Sprintf("native Next() x %d yields %v, the Done()-guarded loop %v", len(np), clipKVs(byCount), clipKVs(np)))
+				}
+				if !it.Done() {
+					viol("dir-iter-by-count Iterator", "native iterator not Done() after Length() entries")
+				}
+			}
+		}
 	} else {
 		viol("dir-native", fmt.Sprintf("%T has no native accessors", n))
 	}
